@@ -366,34 +366,39 @@ Record inst := mkInst {
 
 (* first phase of Term.subst: match the type of every schematic variable that
    is instantiated against the type of its replacement *)
-Fixpoint subst_match (svs : list (string * ty)) (iv : list (string * tm)) (s : tyinst)
+Fixpoint subst_match (fx_closed : bool) (svs : list (string * ty)) (iv : list (string * tm)) (s : tyinst)
   : option tyinst :=
   match svs with
   | [] => Some s
   | (n, T) :: rest =>
       match lookup n iv with
       | Some u =>
+          if fx_closed && is_open u then None else
           match get_type u with
           | Some U =>
               match ty_match_incr T U s with
-              | Some s' => subst_match rest iv s'
+              | Some s' => subst_match fx_closed rest iv s'
               | None => None
               end
           | None => None
           end
-      | None => subst_match rest iv s
+      | None => subst_match fx_closed rest iv s
       end
   end.
 
 (* [fx_var] = repaired behaviour: a var_inst entry is used only when the
-   replacement is closed and has the variable's type; otherwise the
-   substitution fails.  Historical: replacement by name, unchecked. *)
-Fixpoint subst_rec (fx_var : bool) (I : inst) (t : tm) : option tm :=
+   replacement has the variable's type; otherwise the substitution fails.
+   Historical: replacement by name, unchecked.
+   [fx_closed] = second repair: replacements (of schematic variables and of
+   var_inst entries) must be closed; get_type alone does not see a loose bound
+   variable in an argument position. *)
+Fixpoint subst_rec (fx_var fx_closed : bool) (I : inst) (t : tm) : option tm :=
   match t with
   | SVar n _ => match lookup n (i_sv I) with Some u => Some u | None => Some t end
   | Var n T =>
       match lookup n (i_var I) with
       | Some u =>
+          if fx_closed && is_open u then None else
           if fx_var then
             match get_type u with
             | Some U => if ty_eqb U T then Some u else None
@@ -405,13 +410,13 @@ Fixpoint subst_rec (fx_var : bool) (I : inst) (t : tm) : option tm :=
   | Const _ _ => Some t
   | Bound _ => Some t
   | Comb f a =>
-      match subst_rec fx_var I f, subst_rec fx_var I a with
+      match subst_rec fx_var fx_closed I f, subst_rec fx_var fx_closed I a with
       | Some f', Some a' => Some (Comb f' a')
       | _, _ => None
       end
   | Abs x T b =>
       let x' := match lookup x (i_abs I) with Some y => y | None => x end in
-      match subst_rec fx_var I b with
+      match subst_rec fx_var fx_closed I b with
       | Some b' => Some (Abs x' T b')
       | None => None
       end
@@ -419,11 +424,11 @@ Fixpoint subst_rec (fx_var : bool) (I : inst) (t : tm) : option tm :=
 
 (* Term.subst; the type instantiation is threaded because the Python code
    mutates inst.tyinst *)
-Definition tm_subst (fx_var : bool) (I : inst) (s : tyinst) (t : tm) : option (tm * tyinst) :=
-  match subst_match (svars_of t) (i_sv I) s with
+Definition tm_subst (fx_var fx_closed : bool) (I : inst) (s : tyinst) (t : tm) : option (tm * tyinst) :=
+  match subst_match fx_closed (svars_of t) (i_sv I) s with
   | Some s' =>
       let t' := if is_nil s' then t else tm_subst_type s' t in
-      match subst_rec fx_var I t' with
+      match subst_rec fx_var fx_closed I t' with
       | Some r => Some (r, s')
       | None => None
       end
@@ -475,10 +480,11 @@ Definition check_thm_type (th : thm) : bool :=
 Record fixes := mkFixes {
   fx_occurs_svar : bool;   (* C01 defect 1 *)
   fx_var_inst : bool;      (* C01 defect 2 *)
-  fx_subst_pass : bool     (* C01 defect 3: one type instantiation for the whole sequent *)
+  fx_subst_pass : bool;    (* C01 defect 3: one type instantiation for the whole sequent *)
+  fx_inst_closed : bool    (* C01 defect 4: replacements must be closed *)
 }.
-Definition fixes_off := mkFixes false false false.
-Definition fixes_on := mkFixes true true true.
+Definition fixes_off := mkFixes false false false false.
+Definition fixes_on := mkFixes true true true true.
 
 Section Rules.
 Variable fx : fixes.
@@ -568,7 +574,7 @@ Fixpoint subst_list (I : inst) (s : tyinst) (l : list tm) : option (list tm * ty
   match l with
   | [] => Some ([], s)
   | t :: l' =>
-      match tm_subst (fx_var_inst fx) I s t with
+      match tm_subst (fx_var_inst fx) (fx_inst_closed fx) I s t with
       | Some (t', s') =>
           match subst_list I s' l' with
           | Some (r, s'') => Some (t' :: r, s'')
@@ -594,7 +600,7 @@ Definition r_substitution (I : inst) (th : thm) : option thm :=
   | Some s0 =>
       match subst_list I s0 (hyps th) with
       | Some (hs, s') =>
-          match tm_subst (fx_var_inst fx) I s' (prop th) with
+          match tm_subst (fx_var_inst fx) (fx_inst_closed fx) I s' (prop th) with
           | Some (p, _) => Some (mkThm hs p)
           | None => None
           end
